@@ -96,14 +96,13 @@ func (s *publishSubjectImpl[T]) Next(value T) {
 // Implements Observer.
 func (s *publishSubjectImpl[T]) NextWithContext(ctx context.Context, value T) {
 	s.mu.Lock()
+	defer s.mu.Unlock() // deferred: an observer of the caller's own may panic in Next
 
 	if s.status == KindNext {
 		s.broadcastNext(ctx, value)
 	} else {
 		OnDroppedNotification(ctx, NewNotificationNext(value))
 	}
-
-	s.mu.Unlock()
 }
 
 // Implements Observer.
